@@ -1,6 +1,7 @@
 import RcVerif.Model.Inst
 import RcVerif.Model.CDecode
 import RcVerif.Spec.KeySlot
+import RcVerif.Model.SimInst
 /-
   Line-protocol driver: one request per input line, one canonical answer per
   output line. Core-only, compiled as `rcdriver`.
@@ -16,7 +17,103 @@ def showFrags (l : List (Nat × Bytes)) : String :=
 def showKeys (l : List Bytes) : String :=
   String.intercalate "," (l.map hexOrDash)
 
+/-! ### sim: `sim <cfg> | <topo> | ev ; ev ; ...` (concrete events with choices) -/
+
+def kv (tok : String) : String × String :=
+  match tok.splitOn "=" with
+  | [k, v] => (k, v)
+  | _ => (tok, "")
+
+def parseCfg (s : String) : Option Sim.Cfg := do
+  let toks := (s.splitOn " ").filter (· ≠ "")
+  let get (k : String) : Option String := (toks.map kv).lookup k
+  let limit ← (← get "limit").toNat?
+  let timeout ← (← get "timeout").toNat?
+  let pw ← fromHex (← get "pw")
+  let noslave ← (← get "noslave").toNat?
+  let conns ← (← get "conns").toNat?
+  pure { limit := limit, timeout := timeout != 0, passwd := pw, disableSlave := noslave != 0, maxActive := conns }
+
+/-- topology items separated by ',' : `P addrhex isSlave` | `R lo hi masterhex slavehex+slavehex` -/
+def parseTopo (s : String) : Option (List (Bytes × Bool) × List (Nat × Nat × Sim.RSet)) :=
+  ((s.splitOn ",").map (fun it => (it.splitOn " ").filter (· ≠ ""))).foldlM (fun (acc : List (Bytes × Bool) × List (Nat × Nat × Sim.RSet)) it =>
+    match it with
+    | [] => some acc
+    | ["P", a, sl] => do
+      let addr ← fromHex a
+      pure (acc.1 ++ [(addr, sl != "0")], acc.2)
+    | ["R", lo, hi, m, sl] => do
+      let lo ← lo.toNat?
+      let hi ← hi.toNat?
+      let m ← fromHex m
+      let slaves ← if sl = "-" then some [] else (sl.splitOn "+").mapM fromHex
+      pure (acc.1, acc.2 ++ [(lo, hi, { master := m, slaves := slaves })])
+    | _ => none) ([], [])
+
+def parseChoices (s : String) : Option (List Sim.ReqChoice) :=
+  if s = "-" then some [] else
+  (s.splitOn "/").mapM (fun rc =>
+    if rc = "_" then some { visit := [] } else do
+      let vs ← (rc.splitOn ",").mapM (fun v =>
+        match v.splitOn "@" with
+        | [sl, a] => do
+          let sl ← sl.toNat?
+          let a ← fromHex a
+          pure (sl, a)
+        | _ => none)
+      pure { visit := vs })
+
+def parseEvent (s : String) : Option Sim.Event :=
+  match (s.splitOn " ").filter (· ≠ "") with
+  | ["C", adm] => some (.connect (adm != "0"))
+  | ["c", i, d, ch] => do
+    let i ← i.toNat?
+    let d ← fromHex d
+    let ch ← parseChoices ch
+    pure (.clientBytes i d ch)
+  | ["x", i] => do pure (.clientClose (← i.toNat?))
+  | ["T"] => some .runTasks
+  | ["S", j, d] => do
+    let j ← j.toNat?
+    let d ← fromHex d
+    pure (.backendBytes j d)
+  | ["X", j] => do pure (.backendClose (← j.toNat?))
+  | ["E"] => some .expire
+  | _ => none
+
+def simInit (cfg : Sim.Cfg) (pools : List (Bytes × Bool)) (table : List (Nat × Nat × Sim.RSet)) : Sim.State :=
+  let s0 : Sim.State := { pools := pools.map (fun p => { addr := p.1, isSlave := p.2 }), table := table }
+  -- every pool is connected once at start-up (RedisPreconnect)
+  (List.range pools.length).foldl (fun s p => (Sim.poolGet goStrs cfg s p).1) s0
+
+def showSim (s : Sim.State) : String :=
+  let cs := s.clients.map (fun c => s!"{if c.opened then "o" else "x"}:{hexOrDash c.out}")
+  let bs := s.backends.map (fun b => s!"{toHex b.addr}:{if b.opened then "o" else "x"}:{hexOrDash b.out}")
+  let fl := match s.flag with | some f => f | none => "ok"
+  s!"flag={fl} clients={String.intercalate "," cs} backends={String.intercalate "," bs}"
+
+def simLine (rest : String) : String :=
+  match rest.splitOn "|" with
+  | [cfgS, topoS, evS] =>
+    match parseCfg cfgS, parseTopo topoS with
+    | some cfg, some (pools, table) =>
+      let evs := ((evS.splitOn ";").map String.trimAscii).map (·.toString) |>.filter (· ≠ "")
+      match evs.mapM parseEvent with
+      | some es =>
+        let s0 := simInit cfg pools table
+        -- snapshot of the output lengths after each event
+        let (sN, snaps) := es.foldl (fun (acc : Sim.State × List String) e =>
+          let s' := Sim.step goTables goStrs cfg goSlot acc.1 e
+          let snap := String.intercalate "." (s'.clients.map (fun c => toString c.out.length)) ++ "/" ++
+                      String.intercalate "." (s'.backends.map (fun b => toString b.out.length))
+          (s', acc.2 ++ [snap])) (s0, [])
+        showSim sN ++ " trace=" ++ String.intercalate ";" snaps
+      | none => "bad-op events"
+    | _, _ => "bad-op cfg"
+  | _ => "bad-op shape"
+
 def stepLine (line : String) : String :=
+  if line.startsWith "sim " then simLine (line.drop 4).toString else
   match (line.trimAscii.toString.splitOn " ").filter (· ≠ "") with
   | ["hash", k] =>
     match fromHex k with
